@@ -202,7 +202,8 @@ FP_KIND = {0: "nearest", 1: "bilinear", 2: "sepconv"}
 FP_FN = {0: "bits_image_fetch_nearest_affine", 1: "bits_image_fetch_bilinear_affine", 2: "bits_image_fetch_separable_convolution_affine"}
 FP_FMTS = ("a8r8g8b8", "x8r8g8b8", "a8", "r5g6b5")
 FP_CALL = {0: "worker", 1: "instance", 2: "table"}
-FP_COVER_W = ((0, 0),)          # weight pairs of the cover-iterator jobs (see the note in fastpath_jobs)
+# weight pairs of the cover-iterator jobs: only weights 0 and 64 (products by 0 / by a power of two) finish; (37,90), (127,1) ran past 400 s
+FP_COVER_W = ((0, 0), (0, 64), (64, 0), (64, 64))
 
 
 def fp_affine_job(kind, rep, fmt, call, w=None, cw=2, cht=1, timeout=None, pad=None, name=None, extra=None):
@@ -247,7 +248,11 @@ def fastpath_jobs(tier):
     if th:
         for kind in (0, 1, 2):
             for rep in (0, 1, 2, 3):
-                for fmt in FP_FMTS:
+                for fi, fmt in enumerate(FP_FMTS):
+                    # sepconv: 1.5-4 min of solver time each: a checkerboard of 8 of the 16 instances (every repeat mode and every
+                    # format twice) unless VERIF_C08_ALLSEPCONV=1
+                    if kind == 2 and (rep + fi) % 2 and os.environ.get("VERIF_C08_ALLSEPCONV") != "1":
+                        continue
                     combos.append((kind, rep, fmt, 2))
                     if kind != 2:       # (sepconv: 1.5-4 min of solver time each; the table route runs the instance anyway)
                         combos.append((kind, rep, fmt, 1))
@@ -269,7 +274,7 @@ def fastpath_jobs(tier):
                       timeout=600, min_props=4))
     # bilinear "cover" iterator (fast_bilinear_cover_iter_init / fast_fetch_bilinear_cover): obtained through fast_iters[];
     # precondition = meaning of SAMPLES_COVER_CLIP_BILINEAR.  One channel and one weight pair (of the first sample) per query.
-    cov = [(0, 0, 0), (0, 0, 3)] if not th else [(wx, wy, ch) for (wx, wy) in FP_COVER_W for ch in (0, 1, 2, 3)]
+    cov = [(0, 64, 0), (64, 64, 3)] if not th else [(wx, wy, ch) for (wx, wy) in FP_COVER_W for ch in (0, 1, 2, 3)]
     for wx, wy, ch in cov:
         js.append(Job("fastpath.cover.w%d_%d.ch%d" % (wx, wy, ch), "C08/fp_cover.c",
                       defines={"VC_W": 1, "VC_WX": wx, "VC_WY": wy, "VC_CH": ch}, unwind=8, object_bits=10,
@@ -381,9 +386,11 @@ META = {
         "pixman-fast-path.c bits_image_fetch_bilinear_no_repeat_8888 (the X_UNIT_POSITIVE / Y_UNIT_ZERO NONE-repeat bilinear scanline fetcher)",
         "pixman-fast-path.c affine fetchers: bounded to a 4x3 source, scanline width <= 2 (sepconv: 1), positions within +-10 pixels; "
         "sepconv instances only with a 2x1 one-hot kernel and 0 subsample bits (phase tables of the fast-path fetcher: fastpath.sepconv.window.* only)",
-        "fast_fetch_bilinear_cover: only the weight pair (0,0) of the first sample finishes (pixel index / stepping / line cache / memory safety under "
-        "COVER_CLIP_BILINEAR); the two-pass 64-bit-lane interpolation with non-zero weights did not finish in 400 s even with one channel, width 1 "
-        "and the weights built as constants: its arithmetic is NOT verified",
+        "fast_fetch_bilinear_cover: only weight pairs over {0, 64} finish (pixel index, stepping, line cache, lane layout, memory safety under "
+        "COVER_CLIP_BILINEAR; whole-pixel steps, width 1); the two-pass 64-bit-lane interpolation with general weights ((37,90), (127,1)) did not "
+        "finish in 400 s even with one channel and the weights built as constants: its arithmetic is verified at half weights only",
+        "8 of the 16 bits_image_fetch_separable_convolution_affine_<repeat>_<format> instances in the thorough tier (all 16 with VERIF_C08_ALLSEPCONV=1, "
+        "measured: pass, ~13 min at 6 jobs); 1 in the quick tier",
         "r5g6b5 iterators: width <= 7",
         "float (wide) fetchers: bits_image_fetch_pixel_bilinear_float, accum_float/reduce_float",
         "fetch_pixel_general_32 alpha-map branch; __bits_image_fetch_general stepping of w beyond the first pixel in the quick tier",
